@@ -267,3 +267,55 @@ func (c *Ctx) searchReadsByIDAlone(rule string) {
 	}
 	R.Min(rule, "statements of GetMessageDateAndSize", n, 1)
 }
+
+
+// searchAnswersComeFromSearch (R15.8): the numbers of a SEARCH response are the ones Mailbox.Search produced.
+func (c *Ctx) searchAnswersComeFromSearch(rule string) {
+	P, R := c.P, c.R
+	R.Explain(rule, "UID SEARCH returns UIDs, SEARCH sequence numbers: the choice between the two is made in one place, inside state.Mailbox.Search (R15.6).  In internal/session every number handed to response.Search therefore originates - all producers followed, through variables and phis - from the first result of Mailbox.Search; the handler builds no numbers of its own.  A shortcut in the handler (`ALL` answered as 1..Count()) is right for SEARCH and wrong for UID SEARCH as soon as a message has been expunged.")
+	n := 0
+	for _, f := range c.funcsInPkg("internal/session") {
+		for _, cs := range engine.Calls(f) {
+			sc := cs.Common().StaticCallee()
+			if sc == nil || cs.Instr.Parent() != f || engine.ShortName(sc) != "Search" || engine.RelPkg(P.OwnPkgPath(sc)) != "internal/response" || len(cs.Common().Args) == 0 {
+				continue
+			}
+			n++
+			bad, any := "", false
+			engine.Backward(cs.Common().Args[0], engine.FlowOpts{Loads: true, AppendBase: true, AppendElems: true}, func(x ssa.Value) bool {
+				if bad != "" {
+					return false
+				}
+				switch t := x.(type) {
+				case *ssa.Extract:
+					if call, ok := t.Tuple.(*ssa.Call); ok {
+						if g := call.Call.StaticCallee(); g != nil && engine.ShortName(g) == "Search" && engine.RecvNamed(g) != nil && engine.RecvNamed(g).Obj().Name() == "Mailbox" && t.Index == 0 {
+							any = true
+							return false
+						}
+					}
+					bad = "a result of " + t.Tuple.String()
+					return false
+				case *ssa.Const:
+					if t.IsNil() {
+						return false
+					}
+					bad = "constant " + t.String()
+					return false
+				case *ssa.MakeSlice, *ssa.Alloc, *ssa.Parameter:
+					bad = x.String() + " at " + P.Pos(x.Pos())
+					return false
+				case *ssa.Call:
+					if _, isApp := engine.IsBuiltinCall(t, "append"); isApp {
+						return true
+					}
+					bad = "the result of " + t.Call.Value.String() + " at " + P.Pos(t.Pos())
+					return false
+				}
+				return true
+			})
+			R.Check(bad == "" && any, rule, c.name(f)+"|response.Search numbers", P.Pos(cs.Pos()), "the numbers are the first result of Mailbox.Search", "the SEARCH response is given numbers that do not (only) come from Mailbox.Search ("+bad+"): they are not mapped to UIDs for UID SEARCH / to sequence numbers for SEARCH")
+		}
+	}
+	R.Min(rule, "response.Search call sites in internal/session", n, 1)
+}
